@@ -66,7 +66,7 @@ class Ctx:
 
     # ------------------------------------------------------------------ TLC
     def tlc(self, module, cfg, workers=None, timeout=900, extra=(), env_extra=None, simulate=None,
-            depth=None, check_deadlock=False, name=None, want_output=False, coverage=False, dfs=False):
+            depth=None, check_deadlock=False, name=None, want_output=False, coverage=False, dfs=False, heap=None):
         """Run TLC on spec/<module>.tla with spec/<cfg>. Returns dict(out, generated, distinct, ok, violated).
         Raises Inconclusive on crash/timeout."""
         name = name or cfg.replace(".cfg", "")
@@ -80,6 +80,8 @@ class Ctx:
         if workers is None:
             workers = NCPU
         cmd = ["java", "-XX:+UseParallelGC", "-Xss512m"]
+        if heap:
+            cmd.append("-Xmx" + heap)   # several trace validations run side by side: keep each JVM small
         if dfs:
             cmd.append("-Dtlc2.tool.queue.IStateQueue=StateDeque")
         cmd += ["-cp", TLA_CP, "tlc2.TLC", "-config", cfg, "-workers", str(workers), "-metadir", os.path.join(work, "meta"),
@@ -170,7 +172,7 @@ class Ctx:
     def validate_traces(self, module, cfg, trace_file, timeout=1800, dfs=True, name=None):
         """Trace validation: TLC must consume the whole ndjson file (POSTCONDITION on the high-water mark) with all
         invariants on. Returns (accepted, info)."""
-        r = self.tlc(module, cfg, workers=1, timeout=timeout, env_extra={"TRACE_FILE": trace_file}, dfs=dfs, name=name)
+        r = self.tlc(module, cfg, workers=1, timeout=timeout, env_extra={"TRACE_FILE": trace_file}, dfs=dfs, name=name, heap="6g")
         self.states += r["distinct"]
         self.transitions += r["generated"]
         info = {"violated": r["violated"], "rejected_at": None, "out_tail": "\n".join(r["out"].splitlines()[-30:])}
